@@ -773,9 +773,21 @@ func c10RevTableWrong(v ssa.Value) string {
 	if !okT {
 		return ""
 	}
+	// the "invalid character" mark: negative entries, or (unsigned tables) the
+	// one value that fills most of the table
+	count := map[int64]int{}
+	for _, e := range tbl {
+		count[e]++
+	}
+	mark, hasMark := int64(0), false
+	for v, n := range count {
+		if 2*n >= len(tbl) {
+			mark, hasMark = v, true
+		}
+	}
 	first, last, nonneg := -1, -1, 0
 	for i, e := range tbl {
-		if e >= 0 {
+		if e >= 0 && !(hasMark && e == mark) {
 			if first < 0 {
 				first = i
 			}
